@@ -8,6 +8,7 @@ import SctpVerif.Driver.PendQ
 import SctpVerif.Driver.RingQ
 import SctpVerif.Driver.Reasm
 import SctpVerif.Driver.Codec
+import SctpVerif.Driver.Sapi
 /-!
 Driver: replays implementation logs (`<comp> <op…> -> <impl result>`) through the L0 models and
 evaluates the executable property predicates on the implementation's results.
@@ -34,6 +35,7 @@ structure All where
   ringq : RingQ.St := {}
   reasm : Reasm.St := {}
   codec : Cdc.St := {}
+  sapi : Drv.Sapi.St := {}
   desync : List String := []
   cnt : Counters := {}
 
@@ -58,6 +60,7 @@ def stepComp (a : All) (comp : String) (op impl : List String) : All × Option S
   | "ringq" => let (s, r, e) := RingQ.step a.ringq op impl; ({ a with ringq := s }, some r, e.toList)
   | "reasm" => let (s, r, e) := Reasm.step a.reasm op impl; ({ a with reasm := s }, some r, e.toList)
   | "codec" => let (s, r, e) := Cdc.step a.codec op impl; ({ a with codec := s }, some r, e.toList)
+  | "sa" => let (s, r, v) := Drv.Sapi.step a.sapi op impl; ({ a with sapi := s }, r, v)
   | _ => (a, some "unknown-component", [])
 
 partial def loop (h : IO.FS.Stream) (a : All) (lineNo : Nat) : IO All := do
